@@ -337,6 +337,16 @@ class Arr:
                 _srt((tuple(vkey(i) for i in w["idx"]), tuple(w["guards"]), tuple(w["loops"]), vkey(w["val"])) for w in self.writes))
 
 
+class KeyVal:
+    """A value known only by its canonical key (used by rules that rewrite keys and compare them again)."""
+
+    def __init__(self, k):
+        self.k = k
+
+    def key(self):
+        return self.k
+
+
 class ElemRef:
     """`&mut a[idx]` as handed out by `a.iter_mut()` for a tracked array: assigning through it is the indexed write `a[idx] = v`."""
 
@@ -378,7 +388,7 @@ class Clo:
 def vkey(v):
     if isinstance(v, Poly):
         return v.key()
-    if isinstance(v, (Rec, Tup, Sym, Alt, Clo, Seq, Coll, Arr, EarlyRet, PushLog, ElemRef)):
+    if isinstance(v, (Rec, Tup, Sym, Alt, Clo, Seq, Coll, Arr, EarlyRet, PushLog, ElemRef, KeyVal)):
         return v.key()
     if isinstance(v, (tuple, list)):
         return tuple(vkey(x) for x in v)
